@@ -273,6 +273,17 @@ def run_case(case):
         for v in vs:
             v["case"] = case
         return vs
+    if "history" in case and "built_history" not in case:
+        from checks import c07
+
+        sysm = _ref_link_system()(case["history"], case.get("holes", (0, 0, 0)))
+        L = sysm.fresh()
+        for op in case["history"]:
+            sysm.apply(L, op)
+        vs = sysm.state_check(L)
+        for v in vs:
+            v["case"] = case
+        return vs
     if "c01case" in case:
         from checks import c01
 
@@ -484,6 +495,51 @@ def _task(t):
     return r
 
 
+def _strip(l):
+    l = list(l)
+    while l and l[-1] == -1:
+        l.pop()
+    return l
+
+
+def _ref_link_system():
+    from checks import c07
+
+    class RefLinkSystem(c07.LinkSystem):
+        """Every link state of the C07 driver, written by the INDEPENDENT encoder from the live tables (explicit slot
+        chunk on every linked module, and the library's own elision rule), as initial file X of the open/save machine."""
+
+        def state_check(self, L):
+            from rvref import codec as rc
+
+            dec = rc.decode(C.save(L.p)).value
+            for i, m in enumerate(L.p.modules):
+                if m is not None and i < len(dec["modules"]) and dec["modules"][i] is not None:
+                    dec["modules"][i]["in_links"] = _strip(m.in_links)
+                    dec["modules"][i]["in_link_slots"] = _strip(m.in_link_slots)[:len(_strip(m.in_links))]
+            out = []
+            for name, layout in (("slot-chunk-always", {"slot_chunk": "always"}), ("canonical", None)):
+                try:
+                    x = rc.encode(dec, layout)
+                except Exception:
+                    continue
+                _st, vs, _h = chain(x, 3, {"file": "reference-encoded-link-state", "layout": name})
+                out += vs
+            return out[:3]
+
+    return RefLinkSystem
+
+
+def run_ref_links(ctx):
+    from checks import c07
+    from rvmc import explorer
+    from rvmc.runner import rotate
+
+    A1 = [o for o in c07.alphabet_A1() if o["op"] != "save"]
+    sysm = _ref_link_system()(A1)
+    return explorer.bfs(ctx, sysm, 5 if ctx.thorough else 4, op_indices=rotate(range(len(A1)), ctx.seed), chunk=128, verify_chunk=64)
+
+
 def run(ctx):
     treeenv.setup()
     cycles = 5 if ctx.thorough else 3
@@ -526,6 +582,8 @@ def run(ctx):
     for r in ctx.pmap(_task, rotate(tasks, ctx.seed)):
         agg.merge(r)
     ctx.add(agg.violations)
+    rl = run_ref_links(ctx)
+    ctx.add(rl.violations)
     ok = agg.counters.get("ok", 0)
     return {
         "states": len(agg.digests) + ok,           # distinct Y1 plus the initial X of each chain
@@ -533,6 +591,7 @@ def run(ctx):
         "traces_validated_against_impl": ok,
         "exhaustive": True,
         "cycles": cycles,
+        "reference_encoded_link_states": rl.replay_verified + 1,
         "initial_states": agg.evals, "loadable": ok, "unloadable": agg.counters.get("unloadable", 0),
         "loadable_but_unsavable": agg.counters.get("unsavable", 0),
         "fixture_mutants": nmut, "distinct_fixpoints": len(agg.digests),
